@@ -34,6 +34,12 @@ def cases(tier, seed):
                                  patterns=("dense",), supports={1: [[(1,)]]}):
         for rep in ("sympy", "csr"):
             out.append(dict(st, repr=rep, vset=0, total=total1))
+    # the zero level placed last (vanishing H_0 block as column block), N <= 4
+    for st in lattice.structures(4, hermitian=True, ks=(1,), placements=(2,), patterns=("dense",), supports={1: [[(1,)]]}):
+        if sum(st["sizes"]) == 4 and len(st["sizes"]) > 2 and tier == "quick":
+            continue
+        for rep in ("sympy", "csr"):
+            out.append(dict(st, repr=rep, vset=0, total=3))
     # every admissible symmetric mask on each block in turn
     for st in lattice.mask_structures(3 if tier == "quick" else 4, hermitian=True):
         for rep in ("sympy", "dense", "csr"):
